@@ -1,176 +1,147 @@
 (* C13 Vector search returns the exact nearest neighbours.
    Statements only; proofs live in Proofs/StableSortProofs.v and Proofs/VecSearchProofs.v.
 
-   Everything is generic: E = embeddings with dimension `dim`, D = distance values,
-   `dist` = the L2 kernel (modelled bit by bit in C38; here any function), `dle` = the
-   comparator handed to sort_by read as "not Greater".  The order hypotheses are required
-   only on the distance values satisfying the guard okD ("not NaN"): no_nan_distance.
-   The property as stated is REFUTED in two classes (known findings F-C13-1, F-C13-2),
-   witnesses below, and proved outside them (C13_search_vec_outside_known). *)
+   The model follows the code after 1932440 (hits ordered by (is_nan, total_cmp)), 9a670c1
+   and 564c799 (an empty embedding vector is stored as "no embedding").  Part A states the
+   property for that code: distances are raw f32 bit patterns, the comparison is
+   `f32_nan_last_le`, there is NO known class, NO guard on the distance values and NO guard
+   on the history except that embeddings have fewer than 2^32 components.  Part B is the
+   generic theory it instantiates.  Part C keeps the three repaired defects as historical
+   `_unfixed` lemmas and regression examples.
+
+   What "closer" means when a distance is NaN.  The order that is proved is the total order
+   the code sorts by: numbers in numeric order (-inf .. -0 < +0 .. +inf), then the NaNs of
+   either sign; ties only between identical bit patterns.  Read numerically with "NaN =
+   undefined = farthest" (f32_closer): the hits are in non-decreasing numeric order, NaN
+   last, and no omitted frame is strictly closer than a returned one
+   (C13_hits_numeric_reading).  The only hypothesis on the kernel's outputs is that no
+   distance is a NEGATIVE NUMBER (sign bit set on a non-NaN: f32_not_negative), which a
+   square root of a sum of squares satisfies and the real kernel is observed to satisfy;
+   it is needed only because f32_closer compares bit patterns, which order like the
+   numbers for non-negative floats only. *)
 From MV Require Import Base.Prelude Model.StableSort Model.VecSearch
   Proofs.StableSortProofs Proofs.VecSearchProofs.
 From Coq Require Import Sorting.Permutation Sorting.Sorted.
 Local Open Scope N_scope.
 
-(* ------------------------------------------------------------------ sorting *)
+(* ================================================================== A. the current code *)
+(* Histories: any list of enable_vec / put (with or without embedding, empty embeddings
+   included) / delete / commit / close+reopen / search_vec calls from an empty memory
+   (Model/VecSearch.v, vrun).  `reached ops` is the state after them, `index_docs` its
+   committed, active embeddings in index order.  E, dim and the kernel `dist` are arbitrary. *)
 
-(* (1) Rust's sort_by is a stable sort.  For a comparison that is total and transitive on
-   the elements satisfying P, "sorted + every tie class in its original order" has exactly
-   one solution: the model does not depend on the algorithm std uses. *)
-Theorem C13_sorted_stable_is_unique :
-  forall (A : Type) (le : A -> A -> bool) (P : A -> Prop),
-    (forall a b, P a -> P b -> le a b = true \/ le b a = true) ->
-    (forall a b c, P a -> P b -> P c -> le a b = true -> le b c = true -> le a c = true) ->
-    forall l l' : list A,
-      Forall P l -> Forall P l' ->
-      StronglySorted (fun a b => le a b = true) l' ->
-      (forall z, P z -> filter (tie le z) l' = filter (tie le z) l) ->
-      l' = isort le l.
-Proof. exact (@stable_sort_unique). Qed.
-Print Assumptions C13_sorted_stable_is_unique.
-
-(* (2) ... and the insertion sort is such a solution: permutation, sorted, stable. *)
-Theorem C13_isort_is_a_stable_sort :
-  forall (A : Type) (le : A -> A -> bool) (P : A -> Prop),
-    (forall a b, P a -> P b -> le a b = true \/ le b a = true) ->
-    (forall a b c, P a -> P b -> P c -> le a b = true -> le b c = true -> le a c = true) ->
-    forall l : list A,
-      Forall P l ->
-      Permutation (isort le l) l /\
-      StronglySorted (fun a b => le a b = true) (isort le l) /\
-      (forall z, P z -> filter (tie le z) (isort le l) = filter (tie le z) l).
-Proof.
-  intros A le P Ht Htr l Hl. split; [apply isort_perm|]. split.
-  - exact (isort_sorted le P Ht Htr l Hl).
-  - intros z Hz. exact (isort_stable le P Ht Htr z l Hz Hl).
-Qed.
-Print Assumptions C13_isort_is_a_stable_sort.
-
-(* (3) a stable merge sort (any fuel = any depth at which it falls back to insertion, as
-   std does for short runs) returns the same list *)
-Theorem C13_merge_sort_same_result :
-  forall (A : Type) (le : A -> A -> bool) (P : A -> Prop),
-    (forall a b, P a -> P b -> le a b = true \/ le b a = true) ->
-    (forall a b c, P a -> P b -> P c -> le a b = true -> le b c = true -> le a c = true) ->
-    forall (fuel : nat) (l : list A), Forall P l -> msort le fuel l = isort le l.
-Proof. exact (@msort_eq_isort). Qed.
-Print Assumptions C13_merge_sort_same_result.
-
-(* ------------------------------------------------------------------ VecIndex::search *)
-
-(* (4) THE PROPERTY at index level.  For a non-empty query whose dimension every document
-   has, and no NaN distance: the search returns hits such that (exact_nn, Model/VecSearch.v)
-     - there are min(limit, m) of them,
-     - hits ++ omitted is a permutation of all (frame id, distance) pairs of the index,
-     - the list is sorted by non-decreasing distance,
-     - no omitted document is strictly closer than any returned one,
-     - ties are in insertion order (also across the cut). *)
-Theorem C13_index_search_exact_nn :
-  forall (E D : Type) (dim : E -> N) (dist : E -> E -> D) (dle : D -> D -> bool) (okD : D -> Prop),
-    (forall a b, okD a -> okD b -> dle a b = true \/ dle b a = true) ->
-    (forall a b c, okD a -> okD b -> okD c -> dle a b = true -> dle b c = true -> dle a c = true) ->
-    forall (q : E) (docs : list (doc E)) (limit : N),
-      dim q <> 0 ->
-      dims_ok E dim q docs ->
-      no_nan_distance E D dist okD q docs ->
-      exists hits,
-        index_search E D dim dist dle docs q limit = Ok hits /\
-        hits = truncate (isort (hit_le D dle) (all_hits E D dist q docs)) limit /\
-        exact_nn E D dist dle okD docs q limit hits.
-Proof. exact isearch_exact. Qed.
-Print Assumptions C13_index_search_exact_nn.
-
-(* (5) the property determines the answer completely: any hit list meeting exact_nn is the
-   one the model (hence, by the correspondence, the implementation) returns *)
-Theorem C13_answer_is_unique :
-  forall (E D : Type) (dist : E -> E -> D) (dle : D -> D -> bool) (okD : D -> Prop),
-    (forall a b, okD a -> okD b -> dle a b = true \/ dle b a = true) ->
-    (forall a b c, okD a -> okD b -> okD c -> dle a b = true -> dle b c = true -> dle a c = true) ->
-    forall (q : E) (docs : list (doc E)) (limit : N) (hits' : list (hit D)),
-      no_nan_distance E D dist okD q docs ->
-      exact_nn E D dist dle okD docs q limit hits' ->
-      hits' = truncate (isort (hit_le D dle) (all_hits E D dist q docs)) limit.
-Proof. exact exact_nn_unique. Qed.
-Print Assumptions C13_answer_is_unique.
-
-(* (6) with NO assumption on the comparison (NaN distances included): still min(limit, m)
-   hits, each a distinct document of the index with its distance *)
-Theorem C13_count_and_membership_unconditional :
-  forall (E D : Type) (dim : E -> N) (dist : E -> E -> D) (dle : D -> D -> bool)
-         (q : E) (docs : list (doc E)) (limit : N),
-    dim q <> 0 -> dims_ok E dim q docs ->
-    exists hits rest,
-      index_search E D dim dist dle docs q limit = Ok hits /\
-      N.of_nat (length hits) = N.min limit (N.of_nat (length docs)) /\
-      Permutation (hits ++ rest) (all_hits E D dist q docs).
-Proof. exact isearch_count_perm. Qed.
-Print Assumptions C13_count_and_membership_unconditional.
-
-(* (7) edge behaviour as the code has it: an empty query returns no hits; a document of
-   another dimension than the (non-empty) query makes the kernel's length assertion fire *)
-Theorem C13_empty_query_no_hits :
-  forall (E D : Type) (dim : E -> N) (dist : E -> E -> D) (dle : D -> D -> bool)
-         (docs : list (doc E)) (q : E) (limit : N),
-    dim q = 0 -> index_search E D dim dist dle docs q limit = Ok [].
-Proof. exact isearch_empty_query. Qed.
-Print Assumptions C13_empty_query_no_hits.
-
-Theorem C13_mixed_dimension_index_panics :
-  forall (E D : Type) (dim : E -> N) (dist : E -> E -> D) (dle : D -> D -> bool)
-         (q : E) (docs : list (doc E)) (limit : N),
-    dim q <> 0 -> (exists d, In d docs /\ dim (doc_emb d) <> dim q) ->
-    index_search E D dim dist dle docs q limit = Panic P_DIST_LEN.
-Proof. exact isearch_panic. Qed.
-Print Assumptions C13_mixed_dimension_index_panics.
-
-(* ------------------------------------------------------------------ Memvid::search_vec *)
-(* Histories: any list of enable_vec / put (with or without embedding) / delete / commit /
-   close+reopen / search_vec calls from an empty memory (Model/VecSearch.v, vrun).
-   `reached ops` is the state after them; `index_docs` its committed, active embeddings.
-   op_ok excludes exactly the put of an embedding of length 0 (known class) and of one
-   with 2^32 components or more. *)
-
-(* (8) THE PROPERTY at memory level, outside the known classes: a query of the index
-   dimension gets the exact nearest neighbours among the committed active embeddings *)
+(* (A1) THE PROPERTY: a query of the index dimension gets exactly the nearest neighbours of
+   the committed active embeddings, in the total order the code sorts by (exact_nn,
+   Model/VecSearch.v: min(limit, m) hits; hits ++ omitted is a permutation of all (frame,
+   distance) pairs; sorted; no omitted pair below a returned one; ties -- identical bit
+   patterns -- in insertion order, also across the cut).  No guard on the distances. *)
 Theorem C13_search_vec_exact_nn :
-  forall (E D : Type) (dim : E -> N) (dist : E -> E -> D) (dle : D -> D -> bool) (okD : D -> Prop),
-    (forall a b, okD a -> okD b -> dle a b = true \/ dle b a = true) ->
-    (forall a b c, okD a -> okD b -> okD c -> dle a b = true -> dle b c = true -> dle a c = true) ->
-    forall (ops : list (vop E)) (q : E) (limit : N) (d0 : doc E),
-      Forall (op_ok E dim) ops ->
-      In d0 (index_docs E (reached E D dim dist dle ops)) ->
-      dim q = dim (doc_emb d0) ->
-      no_nan_distance E D dist okD q (index_docs E (reached E D dim dist dle ops)) ->
-      exists hits,
-        search_vec E D dim dist dle (vmem_of E (reached E D dim dist dle ops)) q limit = Ok hits /\
-        exact_nn E D dist dle okD (index_docs E (reached E D dim dist dle ops)) q limit hits.
-Proof. exact reached_search_exact. Qed.
+  forall (E : Type) (dim : E -> N) (dist : E -> E -> N)
+         (ops : list (vop E)) (q : E) (limit : N) (d0 : doc E),
+    forallb (op_dim_fits_u32 E dim) ops = true ->
+    In d0 (index_docs E (reached E N dim dist f32_nan_last_le ops)) ->
+    dim q = dim (doc_emb d0) ->
+    exists hits,
+      search_vec E N dim dist f32_nan_last_le (vmem_of E (reached E N dim dist f32_nan_last_le ops)) q limit = Ok hits /\
+      exact_nn E N dist f32_nan_last_le (fun _ => True)
+               (index_docs E (reached E N dim dist f32_nan_last_le ops)) q limit hits.
+Proof.
+  intros E dim dist ops q limit d0 Hfit Hin Hq.
+  apply (reached_search_exact E N dim dist f32_nan_last_le (fun _ => True)
+           (fun a b _ _ => f32_nan_last_le_total a b)
+           (fun a b c _ _ _ => f32_nan_last_le_trans a b c) ops q limit d0); try assumption.
+  - apply op_ok_of_bools; exact Hfit.
+  - intros d Hd. exact I.
+Qed.
 Print Assumptions C13_search_vec_exact_nn.
 
-(* (9) a query whose dimension differs from the index dimension is rejected with
-   VecDimensionMismatch -- an error, not a panic, whatever the distances: the check runs
+(* (A2) the numeric reading of such an answer: if no distance from the query to an indexed
+   embedding is a negative number, the hits are in non-decreasing numeric order with NaN
+   (undefined, either sign) distances last, and no omitted frame is strictly closer -- NaN
+   being farthest -- than a returned one *)
+Theorem C13_hits_numeric_reading :
+  forall (E : Type) (dist : E -> E -> N) (q : E) (docs : list (doc E)) (limit : N) (hits : list (hit N)),
+    no_negative_distance E dist q docs ->
+    exact_nn E N dist f32_nan_last_le (fun _ => True) docs q limit hits ->
+    numeric_nn E dist docs q hits.
+Proof. exact exact_nn_numeric. Qed.
+Print Assumptions C13_hits_numeric_reading.
+
+(* (A2') both together at memory level: every history, every kernel without negative outputs *)
+Theorem C13_search_vec_numeric_nn :
+  forall (E : Type) (dim : E -> N) (dist : E -> E -> N)
+         (ops : list (vop E)) (q : E) (limit : N) (d0 : doc E),
+    forallb (op_dim_fits_u32 E dim) ops = true ->
+    In d0 (index_docs E (reached E N dim dist f32_nan_last_le ops)) ->
+    dim q = dim (doc_emb d0) ->
+    no_negative_distance E dist q (index_docs E (reached E N dim dist f32_nan_last_le ops)) ->
+    exists hits,
+      search_vec E N dim dist f32_nan_last_le (vmem_of E (reached E N dim dist f32_nan_last_le ops)) q limit = Ok hits /\
+      N.of_nat (length hits) = N.min limit (N.of_nat (length (index_docs E (reached E N dim dist f32_nan_last_le ops)))) /\
+      numeric_nn E dist (index_docs E (reached E N dim dist f32_nan_last_le ops)) q hits.
+Proof.
+  intros E dim dist ops q limit d0 Hfit Hin Hq Hnn.
+  destruct (C13_search_vec_exact_nn E dim dist ops q limit d0 Hfit Hin Hq) as [hits [H1 H2]].
+  exists hits. split; [exact H1|]. split.
+  - destruct H2 as [rest [Hlen _]]. exact Hlen.
+  - exact (exact_nn_numeric E dist q _ limit hits Hnn H2).
+Qed.
+Print Assumptions C13_search_vec_numeric_nn.
+
+(* (A3) the comparison (is_nan, total_cmp) on bit patterns is a total order: total,
+   transitive, antisymmetric (a tie is bit equality); a NaN of either sign is above every
+   non-NaN pattern; two sign-clear non-NaN patterns (non-negative numbers, +inf) compare
+   like their bits *)
+Theorem C13_comparison_is_a_total_order :
+  (forall a b, f32_nan_last_le a b = true \/ f32_nan_last_le b a = true) /\
+  (forall a b c, f32_nan_last_le a b = true -> f32_nan_last_le b c = true -> f32_nan_last_le a c = true) /\
+  (forall a b, a < U32_MOD -> b < U32_MOD -> f32_nan_last_le a b = true -> f32_nan_last_le b a = true -> a = b) /\
+  (forall a b, f32_is_nan a = false -> f32_is_nan b = true ->
+               f32_nan_last_le a b = true /\ f32_nan_last_le b a = false) /\
+  (forall a b, a < F32_SIGN -> b < F32_SIGN -> f32_is_nan a = false -> f32_is_nan b = false ->
+               f32_nan_last_le a b = N.leb a b).
+Proof.
+  split; [exact f32_nan_last_le_total|]. split; [exact f32_nan_last_le_trans|].
+  split; [exact f32_nan_last_le_antisym|]. split; [exact f32_nan_last_le_nan_last|exact f32_nan_last_le_nonneg].
+Qed.
+Print Assumptions C13_comparison_is_a_total_order.
+
+(* (A4) a query whose dimension differs from the index dimension is rejected with
+   VecDimensionMismatch -- an error, not a panic, for EVERY kernel `dist`: the check runs
    before any distance is computed *)
 Theorem C13_wrong_dimension_rejected :
   forall (E D : Type) (dim : E -> N) (dist : E -> E -> D) (dle : D -> D -> bool)
          (ops : list (vop E)) (q : E) (limit : N) (d0 : doc E),
-    Forall (op_ok E dim) ops ->
+    forallb (op_dim_fits_u32 E dim) ops = true ->
     In d0 (index_docs E (reached E D dim dist dle ops)) ->
     dim q < U32_MOD -> dim q <> dim (doc_emb d0) ->
     search_vec E D dim dist dle (vmem_of E (reached E D dim dist dle ops)) q limit = Err E_DIM_MISMATCH.
-Proof. exact reached_wrong_dim. Qed.
+Proof.
+  intros E D dim dist dle ops q limit d0 Hfit. apply reached_wrong_dim. apply op_ok_of_bools; exact Hfit.
+Qed.
 Print Assumptions C13_wrong_dimension_rejected.
 
-(* (10) outside the known class search_vec never panics *)
-Theorem C13_search_vec_never_panics_outside_known :
+(* (A5) search_vec never panics (any history, any query below 2^32 components, any kernel,
+   any comparison) *)
+Theorem C13_search_vec_never_panics :
   forall (E D : Type) (dim : E -> N) (dist : E -> E -> D) (dle : D -> D -> bool)
          (ops : list (vop E)) (q : E) (limit : N),
-    Forall (op_ok E dim) ops -> dim q < U32_MOD ->
+    forallb (op_dim_fits_u32 E dim) ops = true -> dim q < U32_MOD ->
     forall site, search_vec E D dim dist dle (vmem_of E (reached E D dim dist dle ops)) q limit <> Panic site.
-Proof. exact reached_no_panic. Qed.
-Print Assumptions C13_search_vec_never_panics_outside_known.
+Proof.
+  intros E D dim dist dle ops q limit Hfit. apply reached_no_panic. apply op_ok_of_bools; exact Hfit.
+Qed.
+Print Assumptions C13_search_vec_never_panics.
 
-(* (11) close and reopen, for EVERY history (known classes included): reopening yields the
-   committed state; with nothing pending it is the same state, so every answer is identical *)
+(* (A6) an empty embedding vector is no embedding: the put is the put without embedding *)
+Theorem C13_empty_embedding_is_no_embedding :
+  forall (E : Type) (dim : E -> N) (s : vstate E) (fid : N) (e : E),
+    dim e = 0 -> vput E dim s fid (Some e) = vput E dim s fid None.
+Proof. intros E dim s fid e H. unfold vput, vput_gen. rewrite H. reflexivity. Qed.
+Print Assumptions C13_empty_embedding_is_no_embedding.
+
+(* (A7) close and reopen: reopening yields the committed state; with nothing pending it is
+   the same state, so every answer is identical *)
 Theorem C13_reopen_is_commit :
   forall (E D : Type) (dim : E -> N) (dist : E -> E -> D) (dle : D -> D -> bool) (ops : list (vop E)),
     vreopen E dim (reached E D dim dist dle ops) = vcommit E dim (reached E D dim dist dle ops).
@@ -187,7 +158,7 @@ Theorem C13_results_identical_after_reopen :
 Proof. exact reached_reopen_clean. Qed.
 Print Assumptions C13_results_identical_after_reopen.
 
-(* (12) the model's "the reopened index is the committed document list" rests on the codec
+(* (A8) the model's "the reopened index is the committed document list" rests on the codec
    round trip of Vec<VecDocument> (bincode; C30), stated as a hypothesis and tested on the
    implementation by the harness (decode(finish().bytes) holds the documents bit for bit) *)
 Theorem C13_index_bytes_roundtrip :
@@ -197,103 +168,197 @@ Theorem C13_index_bytes_roundtrip :
 Proof. exact index_decode_encode. Qed.
 Print Assumptions C13_index_bytes_roundtrip.
 
-(* ------------------------------------------------------------------ known findings *)
-(* concrete instance: an embedding is (dimension, distance-to-the-query); distances are
-   f32key (None = NaN), compared by f32_le = partial_cmp(..).unwrap_or(Equal) *)
-Definition XE := (N * f32key)%type.
+(* concrete instance used by the examples and the historical lemmas: an embedding is
+   (dimension, bit pattern of its distance to the query) *)
+Definition XE := (N * N)%type.
 Definition xdim (e : XE) : N := fst e.
-Definition xdist (_ e : XE) : f32key := snd e.
+Definition xdist (_ e : XE) : N := snd e.
+Definition NEG_NAN : N := 4290772992.      (* 0xFFC0_0000: x86 default NaN, e.g. inf - inf, 0.0 / 0.0 *)
+Definition POS_NAN : N := 2143289344.      (* 0x7FC0_0000: f32::NAN *)
+Definition BITS_1 : N := 1065353216.       (* 1.0 *)
+Definition BITS_3 : N := 1077936128.       (* 3.0 *)
 
-(* F-C13-1: an empty embedding is accepted by put and stored by commit; the next search of
-   the index dimension panics *)
-Definition ops_empty : list (vop XE) :=
-  [VPut 0 (Some (2, Some 10)); VPut 1 (Some (0, Some 0)); VCommit].
+(* ================================================================== B. the generic theory *)
 
-Theorem C13_search_vec_refuted_empty_embedding :
-  exists (ops : list (vop XE)) (q : XE) (limit : N),
-    existsb (op_puts_empty XE xdim) ops = true /\
-    forallb (op_dim_fits_u32 XE xdim) ops = true /\
-    search_vec XE f32key xdim xdist f32_le (vmem_of XE (reached XE f32key xdim xdist f32_le ops)) q limit
-      = Panic P_DIST_LEN.
-Proof. exists ops_empty, (2, Some 0), 1. vm_compute. repeat split. Qed.
-Print Assumptions C13_search_vec_refuted_empty_embedding.
+(* (B1) Rust's sort_by is a stable sort.  For a comparison that is total and transitive on
+   the elements satisfying P, "sorted + every tie class in its original order" has exactly
+   one solution: the model does not depend on the algorithm std uses. *)
+Theorem C13_sorted_stable_is_unique :
+  forall (A : Type) (le : A -> A -> bool) (P : A -> Prop),
+    (forall a b, P a -> P b -> le a b = true \/ le b a = true) ->
+    (forall a b c, P a -> P b -> P c -> le a b = true -> le b c = true -> le a c = true) ->
+    forall l l' : list A,
+      Forall P l -> Forall P l' ->
+      StronglySorted (fun a b => le a b = true) l' ->
+      (forall z, P z -> filter (tie le z) l' = filter (tie le z) l) ->
+      l' = isort le l.
+Proof. exact (@stable_sort_unique). Qed.
+Print Assumptions C13_sorted_stable_is_unique.
 
-(* F-C13-2: one NaN distance and the nearest document is not returned.
-   distances 30, 60, +inf(1000), NaN, 22: the search for 1 hit returns the document at 30 *)
-Definition docs_nan : list (doc XE) :=
+(* (B2) ... and the insertion sort is such a solution: permutation, sorted, stable. *)
+Theorem C13_isort_is_a_stable_sort :
+  forall (A : Type) (le : A -> A -> bool) (P : A -> Prop),
+    (forall a b, P a -> P b -> le a b = true \/ le b a = true) ->
+    (forall a b c, P a -> P b -> P c -> le a b = true -> le b c = true -> le a c = true) ->
+    forall l : list A,
+      Forall P l ->
+      Permutation (isort le l) l /\
+      StronglySorted (fun a b => le a b = true) (isort le l) /\
+      (forall z, P z -> filter (tie le z) (isort le l) = filter (tie le z) l).
+Proof.
+  intros A le P Ht Htr l Hl. split; [apply isort_perm|]. split.
+  - exact (isort_sorted le P Ht Htr l Hl).
+  - intros z Hz. exact (isort_stable le P Ht Htr z l Hz Hl).
+Qed.
+Print Assumptions C13_isort_is_a_stable_sort.
+
+(* (B3) a stable merge sort (any fuel = any depth at which it falls back to insertion, as
+   std does for short runs) returns the same list *)
+Theorem C13_merge_sort_same_result :
+  forall (A : Type) (le : A -> A -> bool) (P : A -> Prop),
+    (forall a b, P a -> P b -> le a b = true \/ le b a = true) ->
+    (forall a b c, P a -> P b -> P c -> le a b = true -> le b c = true -> le a c = true) ->
+    forall (fuel : nat) (l : list A), Forall P l -> msort le fuel l = isort le l.
+Proof. exact (@msort_eq_isort). Qed.
+Print Assumptions C13_merge_sort_same_result.
+
+(* (B4) VecIndex::search for any comparison that is a total preorder on the distance values
+   satisfying okD (for the code's comparison: okD = everything) *)
+Theorem C13_index_search_exact_nn :
+  forall (E D : Type) (dim : E -> N) (dist : E -> E -> D) (dle : D -> D -> bool) (okD : D -> Prop),
+    (forall a b, okD a -> okD b -> dle a b = true \/ dle b a = true) ->
+    (forall a b c, okD a -> okD b -> okD c -> dle a b = true -> dle b c = true -> dle a c = true) ->
+    forall (q : E) (docs : list (doc E)) (limit : N),
+      dim q <> 0 ->
+      dims_ok E dim q docs ->
+      no_nan_distance E D dist okD q docs ->
+      exists hits,
+        index_search E D dim dist dle docs q limit = Ok hits /\
+        hits = truncate (isort (hit_le D dle) (all_hits E D dist q docs)) limit /\
+        exact_nn E D dist dle okD docs q limit hits.
+Proof. exact isearch_exact. Qed.
+Print Assumptions C13_index_search_exact_nn.
+
+(* (B5) the property determines the answer completely: any hit list meeting exact_nn is the
+   one the model (hence, by the correspondence, the implementation) returns *)
+Theorem C13_answer_is_unique :
+  forall (E D : Type) (dist : E -> E -> D) (dle : D -> D -> bool) (okD : D -> Prop),
+    (forall a b, okD a -> okD b -> dle a b = true \/ dle b a = true) ->
+    (forall a b c, okD a -> okD b -> okD c -> dle a b = true -> dle b c = true -> dle a c = true) ->
+    forall (q : E) (docs : list (doc E)) (limit : N) (hits' : list (hit D)),
+      no_nan_distance E D dist okD q docs ->
+      exact_nn E D dist dle okD docs q limit hits' ->
+      hits' = truncate (isort (hit_le D dle) (all_hits E D dist q docs)) limit.
+Proof. exact exact_nn_unique. Qed.
+Print Assumptions C13_answer_is_unique.
+
+(* (B6) with NO assumption on the comparison: still min(limit, m) hits, each a distinct
+   document of the index with its distance *)
+Theorem C13_count_and_membership_unconditional :
+  forall (E D : Type) (dim : E -> N) (dist : E -> E -> D) (dle : D -> D -> bool)
+         (q : E) (docs : list (doc E)) (limit : N),
+    dim q <> 0 -> dims_ok E dim q docs ->
+    exists hits rest,
+      index_search E D dim dist dle docs q limit = Ok hits /\
+      N.of_nat (length hits) = N.min limit (N.of_nat (length docs)) /\
+      Permutation (hits ++ rest) (all_hits E D dist q docs).
+Proof. exact isearch_count_perm. Qed.
+Print Assumptions C13_count_and_membership_unconditional.
+
+(* (B7) edge behaviour as the code has it: an empty query returns no hits; at the level of
+   the public VecIndex API (no dimension contract there) a document of another dimension
+   than the non-empty query makes the kernel's length assertion fire *)
+Theorem C13_empty_query_no_hits :
+  forall (E D : Type) (dim : E -> N) (dist : E -> E -> D) (dle : D -> D -> bool)
+         (docs : list (doc E)) (q : E) (limit : N),
+    dim q = 0 -> index_search E D dim dist dle docs q limit = Ok [].
+Proof. exact isearch_empty_query. Qed.
+Print Assumptions C13_empty_query_no_hits.
+
+Theorem C13_mixed_dimension_index_panics :
+  forall (E D : Type) (dim : E -> N) (dist : E -> E -> D) (dle : D -> D -> bool)
+         (q : E) (docs : list (doc E)) (limit : N),
+    dim q <> 0 -> (exists d, In d docs /\ dim (doc_emb d) <> dim q) ->
+    index_search E D dim dist dle docs q limit = Panic P_DIST_LEN.
+Proof. exact isearch_panic. Qed.
+Print Assumptions C13_mixed_dimension_index_panics.
+
+(* ================================================================== C. historical *)
+(* F-C13-1 (repaired by 564c799).  Before, put kept an empty embedding: commit stored it in
+   the index and the next search of the index dimension panicked. *)
+Lemma C13_empty_embedding_panicked_unfixed :
+  let s1 := fst (vput_unfixed XE xdim vinit 0 (Some (2, BITS_1))) in
+  let s2 := fst (vput_unfixed XE xdim s1 1 (Some (0, 0))) in
+  search_vec XE N xdim xdist f32_nan_last_le (vmem_of XE (vcommit XE xdim s2)) (2, 0) 1 = Panic P_DIST_LEN /\
+  (* the repaired put on the same calls: one hit *)
+  (let t1 := fst (vput XE xdim vinit 0 (Some (2, BITS_1))) in
+   let t2 := fst (vput XE xdim t1 1 (Some (0, 0))) in
+   search_vec XE N xdim xdist f32_nan_last_le (vmem_of XE (vcommit XE xdim t2)) (2, 0) 1 = Ok [(0, BITS_1)]).
+Proof. vm_compute. split; reflexivity. Qed.
+
+(* F-C13-2 (repaired by 9a670c1).  Before, the comparator was partial_cmp(..).unwrap_or(Equal)
+   (f32_le_unfixed: None = NaN compares Equal to everything): not transitive, and with
+   distances 30, 60, +inf, NaN, 22 the search for one hit returned the document at 30. *)
+Definition UE := (N * f32key_unfixed)%type.
+Definition udim (e : UE) : N := fst e.
+Definition udist (_ e : UE) : f32key_unfixed := snd e.
+Definition docs_nan_unfixed : list (doc UE) :=
   [mkDoc 0 (2, Some 30); mkDoc 1 (2, Some 60); mkDoc 2 (2, Some 1000); mkDoc 3 (2, None); mkDoc 4 (2, Some 22)].
 
-Theorem C13_exact_nn_refuted_nan_distance :
-  exists (docs : list (doc XE)) (q : XE) (limit : N) (hits : list (hit f32key)),
-    xdim q <> 0 /\ dims_ok XE xdim q docs /\
-    index_search XE f32key xdim xdist f32_le docs q limit = Ok hits /\
-    ~ exact_nn XE f32key xdist f32_le (fun d => f32_okb d = true) docs q limit hits.
-Proof.
-  exists docs_nan, (2, Some 0), 1, [(0, Some 30)].
-  split; [vm_compute; discriminate|]. split.
-  { intros d Hd. vm_compute in Hd. repeat (destruct Hd as [<-|Hd]; [reflexivity|]). destruct Hd. }
-  split; [vm_compute; reflexivity|].
-  intros [rest [_ [Hperm [_ [Hcross _]]]]].
-  assert (Hin : In (4, Some 22) ([(0, Some 30)] ++ rest)).
-  { apply (Permutation_in _ (Permutation_sym Hperm)). vm_compute. tauto. }
-  apply in_app_or in Hin. destruct Hin as [Hin|Hin].
-  - vm_compute in Hin. destruct Hin as [Hin|[]]. discriminate.
-  - specialize (Hcross (0, Some 30) (4, Some 22) (or_introl eq_refl) Hin).
-    vm_compute in Hcross. discriminate.
-Qed.
-Print Assumptions C13_exact_nn_refuted_nan_distance.
-
-(* outside the two classes (known_class = no empty embedding put, no NaN distance from the
-   query to an indexed embedding) the property holds; f32 instance of the comparison *)
-Theorem C13_search_vec_outside_known :
-  forall (E : Type) (dim : E -> N) (dist : E -> E -> f32key)
-         (ops : list (vop E)) (q : E) (limit : N) (d0 : doc E),
-    forallb (op_dim_fits_u32 E dim) ops = true ->
-    In d0 (index_docs E (reached E f32key dim dist f32_le ops)) ->
-    dim q = dim (doc_emb d0) ->
-    known_class E f32key dim dist f32_le f32_okb ops q = false ->
-    exists hits,
-      search_vec E f32key dim dist f32_le (vmem_of E (reached E f32key dim dist f32_le ops)) q limit = Ok hits /\
-      exact_nn E f32key dist f32_le (fun d => f32_okb d = true)
-               (index_docs E (reached E f32key dim dist f32_le ops)) q limit hits.
-Proof.
-  intros E dim dist.
-  exact (reached_search_outside_known E f32key dim dist f32_le f32_okb f32_le_total f32_le_trans).
-Qed.
-Print Assumptions C13_search_vec_outside_known.
-
-(* ------------------------------------------------------------------ non-vacuity *)
-(* a history with ties, a duplicate vector, a frame without embedding, a rejected put of
-   another dimension, a delete and a reopen: 4 active embeddings of dimension 3 *)
-Definition ops_ok : list (vop XE) :=
-  [VPut 0 (Some (3, Some 50)); VPut 1 None; VPut 2 (Some (3, Some 20)); VPut 3 (Some (3, Some 50));
-   VPut 4 (Some (4, Some 1)); VCommit; VPut 4 (Some (3, Some 20)); VPut 5 (Some (3, Some 70));
-   VDelete 0; VReopen; VSearch (3, Some 0) 2].
-
-Example C13_nonvacuous :
-  existsb (op_puts_empty XE xdim) ops_ok = false /\
-  forallb (op_dim_fits_u32 XE xdim) ops_ok = true /\
-  known_class XE f32key xdim xdist f32_le f32_okb ops_ok (3, Some 0) = false /\
-  map (@doc_id XE) (index_docs XE (reached XE f32key xdim xdist f32_le ops_ok)) = [2; 3; 4; 5] /\
-  (* ties (20, 20) in insertion order, the two documents at 50/70 omitted *)
-  search_vec XE f32key xdim xdist f32_le (vmem_of XE (reached XE f32key xdim xdist f32_le ops_ok)) (3, Some 0) 2
-    = Ok [(2, Some 20); (4, Some 20)] /\
-  (* the put of dimension 4 was rejected, a query of dimension 4 is rejected *)
-  snd (vrun XE f32key xdim xdist f32_le vinit ops_ok) =
-    [Ok []; Ok []; Ok []; Ok []; Err E_DIM_MISMATCH; Ok []; Ok []; Ok []; Ok []; Ok [];
-     Ok [(2, Some 20); (4, Some 20)]] /\
-  search_vec XE f32key xdim xdist f32_le (vmem_of XE (reached XE f32key xdim xdist f32_le ops_ok)) (4, Some 0) 2
-    = Err E_DIM_MISMATCH.
+Lemma C13_nan_distance_broke_order_unfixed :
+  f32_le_unfixed (Some 5) None = true /\ f32_le_unfixed None (Some 3) = true /\
+  f32_le_unfixed (Some 5) (Some 3) = false /\
+  index_search UE f32key_unfixed udim udist f32_le_unfixed docs_nan_unfixed (2, Some 0) 1 = Ok [(0, Some 30)].
 Proof. vm_compute. repeat split. Qed.
 
-(* the order hypotheses are satisfiable: the f32 comparison on non-NaN keys *)
-Example C13_f32_order_is_total_preorder :
-  (forall a b, f32_okb a = true -> f32_okb b = true -> f32_le a b = true \/ f32_le b a = true) /\
-  (forall a b c, f32_okb a = true -> f32_okb b = true -> f32_okb c = true ->
-                 f32_le a b = true -> f32_le b c = true -> f32_le a c = true).
-Proof. split; [exact f32_le_total | exact f32_le_trans]. Qed.
+(* the same five documents under the current comparison (NaN = POS_NAN, +inf): nearest first *)
+Definition docs_nan_fixed : list (doc XE) :=
+  [mkDoc 0 (2, BITS_3); mkDoc 1 (2, 1086324736); mkDoc 2 (2, F32_INF); mkDoc 3 (2, POS_NAN); mkDoc 4 (2, 1074731965)].
 
-(* ... and fail with NaN: Equal to both sides of a strict inequality *)
-Example C13_f32_order_not_transitive_with_nan :
-  f32_le (Some 5) None = true /\ f32_le None (Some 3) = true /\ f32_le (Some 5) (Some 3) = false.
+Example C13_nan_distance_now_last :
+  index_search XE N xdim xdist f32_nan_last_le docs_nan_fixed (2, 0) 5
+    = Ok [(4, 1074731965); (0, BITS_3); (1, 1086324736); (2, F32_INF); (3, POS_NAN)].
+Proof. vm_compute. reflexivity. Qed.
+
+(* F-C13-3 (repaired by 1932440).  Between 9a670c1 and 1932440 the comparator was plain
+   total_cmp (f32_total_le_unfixed): a sign-set pattern sorts before every sign-clear one, so
+   a frame whose distance is the x86 default NaN 0xFFC00000 was returned as the nearest. *)
+Definition docs_negnan : list (doc XE) := [mkDoc 0 (2, BITS_3); mkDoc 1 (2, NEG_NAN); mkDoc 2 (2, BITS_1)].
+
+Lemma C13_sign_set_nan_sorted_first_unfixed :
+  (forall a b, F32_SIGN <= a -> b < F32_SIGN ->
+               f32_total_le_unfixed a b = true /\ f32_total_le_unfixed b a = false) /\
+  index_search XE N xdim xdist f32_total_le_unfixed docs_negnan (2, 0) 1 = Ok [(1, NEG_NAN)].
+Proof. split; [exact f32_total_le_unfixed_sign_first | vm_compute; reflexivity]. Qed.
+
+(* regression on the current model: nearest number first, both NaNs last *)
+Example C13_sign_set_nan_sorts_last :
+  index_search XE N xdim xdist f32_nan_last_le docs_negnan (2, 0) 1 = Ok [(2, BITS_1)] /\
+  index_search XE N xdim xdist f32_nan_last_le
+    (docs_negnan ++ [mkDoc 3 (2, POS_NAN); mkDoc 4 (2, F32_INF)]) (2, 0) 9
+    = Ok [(2, BITS_1); (0, BITS_3); (4, F32_INF); (1, NEG_NAN); (3, POS_NAN)] /\
+  forallb (fun d => f32_not_negative (xdist (2, 0) (doc_emb d)))
+          (docs_negnan ++ [mkDoc 3 (2, POS_NAN); mkDoc 4 (2, F32_INF)]) = true.
+Proof. vm_compute. repeat split. Qed.
+
+(* ================================================================== non-vacuity *)
+(* a history with ties, a duplicate vector, a frame without embedding, an empty embedding,
+   a rejected put of another dimension, a delete and a reopen: 4 active embeddings *)
+Definition ops_ok : list (vop XE) :=
+  [VPut 0 (Some (3, 50)); VPut 1 None; VPut 2 (Some (3, 20)); VPut 3 (Some (3, 50));
+   VPut 4 (Some (4, 1)); VPut 4 (Some (0, 0)); VCommit; VPut 5 (Some (3, 20)); VPut 6 (Some (3, POS_NAN));
+   VDelete 0; VReopen; VSearch (3, 0) 2; VSearch (3, 0) 9].
+
+Example C13_nonvacuous :
+  forallb (op_dim_fits_u32 XE xdim) ops_ok = true /\
+  map (@doc_id XE) (index_docs XE (reached XE N xdim xdist f32_nan_last_le ops_ok)) = [2; 3; 5; 6] /\
+  forallb (fun d => f32_not_negative (xdist (3, 0) (doc_emb d)))
+          (index_docs XE (reached XE N xdim xdist f32_nan_last_le ops_ok)) = true /\
+  (* the put of dimension 4 was rejected, the empty embedding accepted and not indexed;
+     ties (20, 20) in insertion order; the NaN distance last *)
+  snd (vrun XE N xdim xdist f32_nan_last_le vinit ops_ok) =
+    [Ok []; Ok []; Ok []; Ok []; Err E_DIM_MISMATCH; Ok []; Ok []; Ok []; Ok []; Ok []; Ok [];
+     Ok [(2, 20); (5, 20)]; Ok [(2, 20); (5, 20); (3, 50); (6, POS_NAN)]] /\
+  search_vec XE N xdim xdist f32_nan_last_le (vmem_of XE (reached XE N xdim xdist f32_nan_last_le ops_ok)) (4, 0) 2
+    = Err E_DIM_MISMATCH.
 Proof. vm_compute. repeat split. Qed.
